@@ -318,6 +318,11 @@ class StackPartition(Concat):
     def _lower(self):
         return
 
+    def _simplify_up(self, parent, dependents):
+        # Physical node: Concat's projection rule rebuilds the expression with
+        # Concat's parameters, which this class does not have
+        return
+
 
 class StackPartitionInterleaved(StackPartition):
     def _divisions(self):
